@@ -25,6 +25,13 @@ def scale(x, f, b):
 
 
 def check(report: Report, repo: Repo) -> None:
+    check_residual(report, repo)
+    # the residual functions are built from the two scale primitives: their contract (C02-R1/R2) is
+    # re-checked here because an aliasing / defaulting change in scale.py breaks this property too
+    from .c02 import check_primitives
+
+    check_primitives(report, repo)
+    report.floor("residual functions analysed", len([o for o in report.obls if o.rule in ("R1-split", "R1-add", "R3-apply")]), 3)
     report.rule_text = (
         "R1: residual_split returns (scale_bwd(input, w_r), scale_bwd(input, w_s)) in that order with forward"
         " factor 1; residual_add returns scale_fwd(residual, w_r) + scale_fwd(skip, w_s) with backward factor 1;"
@@ -33,6 +40,9 @@ def check(report: Report, repo: Repo) -> None:
     )
     report.explanation = "term-level comparison of the three residual functions with the closed form, symbolic tau"
     report.assumptions += ["float multiplication semantics of the scale primitives (C02-R1)", "derivative of (x+tau f(x))/sqrt(1+tau^2) follows from forward/backward weights being equal (paper step)"]
+
+
+def check_residual(report: Report, repo: Repo) -> None:
     sch = SC.residual_schemas(report.tier)
     ident = sp.simplify(W_R**2 + W_S**2 - 1) == 0
     report.add("R2-weights", "oracle::w_r^2+w_s^2", ident, "oracle weights have squares summing to 1", "w_r^2+w_s^2-1", "0", nontrivial=False)
@@ -62,9 +72,3 @@ def check(report: Report, repo: Repo) -> None:
             exp = T("add", (scale(branch, W_R, 1), scale(scale(P("input"), 1, W_S), W_S, 1)))
             r = TM.term_equal(case.term, exp)
             report.add("R3-apply", f"{base}::return", r, "must equal split -> fn(first) -> add(fn result, second) with one tau; " + TM.first_diff(case.term, exp), fmt(case.term), fmt(exp))
-    # the residual functions are built from the two scale primitives: their contract (C02-R1/R2) is
-    # re-checked here because an aliasing / defaulting change in scale.py breaks this property too
-    from .c02 import check_primitives
-
-    check_primitives(report, repo)
-    report.floor("residual functions analysed", len([o for o in report.obls if o.rule != "R2-weights"]), 3)
